@@ -245,7 +245,8 @@ func (w *Watcher) fetchEvents(ctx context.Context, logger *zap.Logger, client *C
 				unconfirmedEvents = append(unconfirmedEvents, unconfirmed...)
 
 				fromIndex = events.NextStart
-				if events.NextStart == *count {
+				// the log may have grown since the count request: NextStart can be beyond count
+				if events.NextStart >= *count {
 					break
 				}
 			}
